@@ -19,6 +19,8 @@ type Hooks struct {
 	OnCoerce func(n *Node, data any)
 	// FieldOrder, if set, returns the order in which the fields of a struct node are inserted into the z.Schema map.
 	FieldOrder func(n *Node) []int
+	// NoShare builds an independent schema object for every occurrence of a shared node (replays its builder chain).
+	NoShare bool
 }
 
 // Built is a real schema plus the typed entry points to use it at top level.
@@ -43,7 +45,7 @@ type builder struct {
 }
 
 func (b *builder) build(n *Node) z.ZogSchema {
-	if s, ok := b.memo[n]; ok {
+	if s, ok := b.memo[n]; ok && !b.h.NoShare {
 		return s
 	}
 	s := b.build1(n)
